@@ -151,3 +151,12 @@ package vm
 //@ func Supervisor.newMomentumContext(s, momentum) -> (ctx)
 //@   requires s != nil && momentum != nil
 //@   at-call NewMomentumVMContext assert[ledger-as-of-the-predecessor] int(arg0) == s.chain.momentumStoreAt[momentum.PreviousHash][(momentum.Height + pow2(64) - 1) % pow2(64)]
+
+// ---- C12: the fused plasma an account may still spend ------------------------------------------------------------------------
+// available = plasma of the QSR fused for the account (as of the acknowledged momentum) + plasma of its confirmed blocks
+//             - plasma already committed to its unconfirmed chain; a negative value is an error, never a positive amount.
+//@ spec availablePlasma(m store.Momentum, a store.Account) int = fusedPlasma(m.fusedAmount[a.address]) + m.committedPlasma[a.address] - a.chainPlasma
+//@ func AvailablePlasma(momentum, account) -> (v, err)
+//@   ensures[never-from-a-deficit] err == nil ==> availablePlasma(momentum, account) >= 0
+//@   ensures[what-is-left] err == nil ==> v == min(availablePlasma(momentum, account), constants.MaxFussedAmountForAccount)
+//@   modifies nothing
